@@ -152,7 +152,9 @@ class Increments(Machine):
         self.comp = [cfg["n0"]]
         if fam.startswith("pca"):
             d = cfg["d"]
-            A = g.randn(d, d) * np.exp(g.uniform(-1.0, 1.0, size=d))
+            # mixing matrix with controlled singular values (condition <= e^2): a random Gaussian matrix can be
+            # nearly singular, which puts an eigenvalue right at the decompositions' relative cut-off (1e-10)
+            A = (np.linalg.qr(g.randn(d, d))[0] * np.exp(g.uniform(-1.0, 1.0, size=d))) @ np.linalg.qr(g.randn(d, d))[0]
             X = g.randn(STREAM, d) @ A.T
             if cfg["centred"]:
                 X = X + g.uniform(2.0, 6.0, size=d) * np.where(g.rand(d) < 0.5, 1, -1)
@@ -172,7 +174,7 @@ class Increments(Machine):
             V, k = cfg["V"], cfg["k"]
             d = V * k
             self.graph = make_graph(cfg["graph"], V, g)
-            A = np.eye(d) + 0.5 * g.randn(d, d) / np.sqrt(d)
+            A = (np.linalg.qr(g.randn(d, d))[0] * np.exp(g.uniform(-0.7, 0.7, size=d))) @ np.linalg.qr(g.randn(d, d))[0]
             X = (g.randn(STREAM, d) @ A.T * 3.0 + g.uniform(-5, 5, size=d)) * 10.0 ** cfg.get("scale_exp", 0)
             self.X, self.d = X, d
             self.tmpl = PointCloud(np.zeros((V, 2))) if fam == "gmrf_obj" else None
@@ -263,10 +265,13 @@ class Increments(Machine):
         # cross-check the batch oracle with the harness' own SVD
         Xc = rows - rows.mean(0) if self.cfg["centred"] else rows
         sv = np.linalg.svd(Xc, compute_uv=False) ** 2 / (n - 1)
-        sv = sv[:len(lb)]
-        ctx.require(len(sv) == len(lb) and float(np.abs(sv - lb).max()) <= 1e-9 * sv[0], "batch_oracle", "batch_pca_differs_from_svd",
+        nb = int((lb > 1e-7 * lb[0]).sum())
+        ctx.require(len(sv) >= nb and float(np.abs(sv[:nb] - lb[:nb]).max()) <= 1e-9 * sv[0], "batch_oracle", "batch_pca_differs_from_svd",
                     lambda: "batch eigenvalues %r svd %r" % (lb.tolist(), sv.tolist()))
-        r = len(lb)
+        # components whose eigenvalue is below 1e-7 of the largest are numerically negligible: whether a
+        # decomposition keeps them depends on which side of its 1e-10 cut-off rounding puts them
+        r = int((lb > 1e-7 * lb[0]).sum())
+        lb = lb[:r]
         ctx.require(len(li) >= r, "incremental_equals_batch", "pca_too_few_eigenvalues_" + tag,
                     lambda: "incremental model has %d eigenvalues, batch has %d (composition %r)" % (len(li), r, self.comp))
         if len(li) < r:
@@ -276,10 +281,11 @@ class Increments(Machine):
         ctx.require(err < 1e-8, "incremental_equals_batch", "pca_eigenvalues_" + tag,
                     lambda: "eigenvalues differ by %.3g (relative to the largest) after composition %r:\n inc %r\n batch %r" % (err, self.comp, li[:r].tolist(), lb.tolist()))
         if len(li) > r:
-            ctx.require(float(li[r:].max()) <= 1e-8 * lb[0], "incremental_equals_batch", "pca_surplus_eigenvalues_" + tag,
+            ctx.require(float(li[r:].max()) <= 2e-7 * lb[0], "incremental_equals_batch", "pca_surplus_eigenvalues_" + tag,
                         lambda: "surplus eigenvalues %r" % li[r:].tolist())
         ci = np.asarray(m.components, float)
         cb = np.asarray(b.components, float)
+        cb = cb[:r]
         ctx.require(ci.shape[0] == len(li) and int(m.n_active_components) == int(m.n_components) == len(li),
                     "incremental_equals_batch", "pca_counts_" + tag,
                     lambda: "components %r eigenvalues %d n_active %r n_components %r" % (ci.shape, len(li), m.n_active_components, m.n_components))
